@@ -370,6 +370,83 @@ def transform01_body():
     return sx.all_of(conds)
 
 
+def random_sampler_body():
+    """the real RandomSampler.sample_independent over a SEQUENCE of distributions for the same name (ranges change between trials);
+    the rng draw is an arbitrary point of the transformed box"""
+    from optuna.samplers import RandomSampler
+
+    class RNG:
+        def __init__(self):
+            self.n = 0
+
+        def uniform(self, lo, hi):
+            out = np.empty(len(lo), dtype=object)
+            for i in range(len(lo)):
+                self.n += 1
+                u = sx.sym_real(f"draw{self.n}")
+                sx.assume((u >= lo[i]) & (u <= hi[i]))
+                out[i] = u
+            return out
+
+    class Lazy:
+        def __init__(self):
+            self.rng = RNG()
+    sampler = RandomSampler(seed=0)
+    sampler._rng = Lazy()
+    kind = sx.choose(["int", "float"], "kind")
+    conds = []
+    for k in range(2):
+        low = sx.choose([-3, -2, -1, 0], f"low{k}")
+        high = sx.choose([2, 3], f"high{k}")
+        d = IntDistribution(low, high) if kind == "int" else FloatDistribution(float(low), float(high))
+        tr.np.known_doubles = []
+        v = sampler.sample_independent(None, None, "x", d)                  # REAL code
+        for (h, a) in NPF64.last_nextafter:
+            sx.assume(SymReal(h) >= SymReal(a) - 1)
+        NPF64.last_nextafter.clear()
+        conds.append(P(d._contains(d.to_internal_repr(v))))
+        conds.append((v >= low) & (v <= high))
+    sx.reach("sampled")
+    return sx.all_of(conds)
+
+
+def transform_roundtrip_body():
+    """untransform(transform(cfg)) == cfg on the grid, with and without transform_0_1, including ranges that are narrow relative to their magnitude"""
+    kind = sx.choose(["int-narrow", "int-step", "int-log-narrow", "float-narrow", "float", "cat"], "kind")
+    t01 = bool(sx.choose(2, "transform_0_1"))
+    if kind == "int-narrow":
+        d = IntDistribution(300000, 300001)
+        v = sx.sym_int("v", 300000, 300001)
+    elif kind == "int-step":
+        d = IntDistribution(1, 10, step=3)
+        v = 1 + 3 * sx.sym_int("k", 0, 3)
+    elif kind == "int-log-narrow":
+        d = IntDistribution(50000, 50002)
+        v = sx.sym_int("v", 50000, 50002)
+    elif kind == "float-narrow":
+        d = FloatDistribution(1000.0, 1000.001)
+        v = sx.sym_real("v", 1000.0, float(np.nextafter(1000.001, 0.0)))      # any double below high is <= nextafter(high)
+    elif kind == "float":
+        d = FloatDistribution(-1.0, 3.0)
+        v = sx.sym_real("v", -1.0, float(np.nextafter(3.0, 0.0)))
+    else:
+        d = CategoricalDistribution(["a", "b", "c"])
+        v = sx.choose(["a", "b", "c"], "v")
+    space = {"p": d, "q": FloatDistribution(0.0, 1.0)}
+    trans = tr._SearchSpaceTransform(space, transform_log=False, transform_step=True, transform_0_1=t01)
+    tr.np.known_doubles = []
+    enc = trans.transform({"p": v, "q": 0.25})                            # REAL code
+    back = trans.untransform(enc)                                         # REAL code
+    for (h, a) in NPF64.last_nextafter:
+        sx.assume(SymReal(h) > v if sx.is_sym(v) and not isinstance(v, SymInt) else True)   # nextafter(high) lies above every double below high
+    NPF64.last_nextafter.clear()
+    sx.reach("roundtrip")
+    if kind == "cat":
+        assert back["p"] == v, f"categorical round trip {v} -> {back['p']}"
+        return True
+    return back["p"] == v
+
+
 def setup_transform01(concrete):
     setup_kernels(concrete)
 
@@ -402,6 +479,12 @@ def obligations(tier):
                    budget_s=900, timeout_ms=120000, classify=classify, require_reach=["untransformed"],
                    describe="_SearchSpaceTransform.untransform(transform_0_1=True): every point of the unit box maps into the domain"),
     ]
+    obs.append(Obligation("random-sampler-sequence", random_sampler_body, setup_transform01, CODE, bounds=dict(trials=2, low=[-3, -2, -1, 0], high=[2, 3], kinds=["int", "float"]),
+                          budget_s=600, classify=classify, require_reach=["sampled"],
+                          describe="RandomSampler.sample_independent for the same name with changing ranges: every draw of the box maps into the CURRENT domain"))
+    obs.append(Obligation("transform-roundtrip", transform_roundtrip_body, setup_transform01, CODE, bounds=dict(kinds=6, transform_0_1=[True, False]),
+                          budget_s=600, classify=classify, require_reach=["roundtrip"],
+                          describe="untransform(transform(cfg)) == cfg incl. narrow ranges at large magnitude"))
     for st in ([1, 2, 3, 7] if q else [1, 2, 3, 4, 5, 7, 10, 16, 64]):
         obs.append(Obligation(f"kernel-int-step{st}", make_int_kernel_body(st, False), setup_kernels, CODE,
                               bounds=dict(low_high="z3 ints, |x|<=2^40", point="ANY z3 real", step=st), budget_s=600, classify=classify,
